@@ -62,6 +62,8 @@ def probe_spec(rng, k, ns=None, nc=None, nt=None, nsw=3, times_grid=6, tdtype='u
             v = {'Amplitude': '%d.5' % (k * 100 + c), 'ContamPct': str(k * 100 + c), 'KSLabel': ['good', 'mua'][c % 2]}[field]
             rows.append('%d\t%s' % (c, v))
         text[fn] = '\n'.join(rows) + '\n'
+        if rng.random() < .2:
+            text[fn] = text[fn].replace('\t', ',')      # a comma-separated cluster_*.tsv: the header line decides
     spec['text_files'] = text
     return spec
 
@@ -76,7 +78,7 @@ def merge_case(rng, nprobes=None, **kw):
     kw = dict(kw)
     kw.setdefault('nloc', 2)
     kw.setdefault('tl', 2)
-    kw.setdefault('sr', rng.pick([100., 1000., 2500., 30000.]))      # one sampling rate for all probes of a merge
+    kw.setdefault('sr', rng.pick([100., 1000., 2500., 30000., 30000.2715, 24414.0625]))      # one sampling rate for all probes of a merge
     kw.setdefault('ind_dtypes', (rng.pick(['int32', 'int64', 'uint32', 'int16', 'uint8']), rng.pick(['int32', 'int64', 'uint32', 'uint16', 'int8'])))
     for i in range(k):
         tsv = [f for f in TSVS if tsv_mode == 0 or (tsv_mode == 1 and rng.random() < .5)]
